@@ -320,22 +320,52 @@ func queryDiff(a, b []sh.QObs) string {
 
 // ---------------------------------------------------------------- C06
 
+// reads outside the endpoint list of property C06
+var c06Skip = map[string]bool{"service-topology": true, "acl-tokens": true, "acl-policies": true, "federation-states": true}
+
 func c06One(hid int, l []logEntry, rec *recorder) {
-	qs := sh.Battery()
+	var qs []sh.Query
+	for _, q := range sh.Battery() {
+		if !c06Skip[strings.SplitN(q.Name, ":", 2)[0]] {
+			qs = append(qs, q)
+		}
+	}
 	h := sh.New()
 	for i, e := range l {
 		pre := sh.Observe(h.Store(), qs)
+		pre2 := sh.Observe(h.Store(), qs)
+		for j := range pre {
+			if pre[j].Res != pre2[j].Res || pre[j].Idx != pre2[j].Idx {
+				fmt.Fprintf(os.Stderr, "UNSTABLE query %s: (%d,%s) vs (%d,%s)\n", pre[j].Name, pre[j].Idx, pre[j].Res, pre2[j].Idx, pre2[j].Res)
+			}
+		}
 		applyEntry(h, e)
 		post := sh.Observe(h.Store(), qs)
 		obs := []M{}
 		for j := range pre {
 			fired := pre[j].Fired()
 			if pre[j].Idx != post[j].Idx || pre[j].Res != post[j].Res || fired {
-				obs = append(obs, M{"q": pre[j].Name, "i0": pre[j].Idx, "r0": pre[j].Res, "i1": post[j].Idx, "r1": post[j].Res, "fired": fired})
+				obs = append(obs, M{"q": pre[j].Name, "fam": strings.SplitN(pre[j].Name, ":", 2)[0], "i0": pre[j].Idx, "r0": pre[j].Res, "i1": post[j].Idx, "r1": post[j].Res, "fired": fired})
 			}
 		}
 		rec.emit(M{"h": hid, "i": i + 1, "idx": e.Idx, "desc": e.Desc, "reap": structs.MessageType(e.Type) == structs.TombstoneRequestType,
 			"nq": len(qs), "obs": obs})
+	}
+}
+
+// ---------------------------------------------------------------- C07
+
+func c07One(hid int, l []logEntry, rec *recorder) {
+	h := sh.New()
+	for i, e := range l {
+		ev := M{"h": hid, "i": i + 1, "idx": e.Idx, "desc": e.Desc}
+		if i == 0 {
+			ev["pre"] = h.ProjectCatalog()
+		}
+		res := applyEntry(h, e)
+		ev["post"] = h.ProjectCatalog()
+		ev["ok"] = res != "error"
+		rec.emit(ev)
 	}
 }
 
@@ -358,6 +388,21 @@ func main() {
 	strict := fs.Bool("strict", false, "no masks, full battery (known-finding probes)")
 	_ = fs.Parse(os.Args[2:])
 	sh.Strict = *strict
+	if mode == "explain" {
+		l := readLog(*logPath)
+		h := sh.New()
+		for i, e := range l {
+			if i+1 == *length {
+				i0, r0 := sh.Explain(h.Store(), *mix)
+				res := applyEntry(h, e)
+				i1, r1 := sh.Explain(h.Store(), *mix)
+				fmt.Printf("entry %d idx %d %s -> %s\nBEFORE idx=%d %s\nAFTER  idx=%d %s\n", i+1, e.Idx, e.Desc, trunc(res, 300), i0, r0, i1, r1)
+				return
+			}
+			applyEntry(h, e)
+		}
+		return
+	}
 	if mode == "replica" {
 		replicaChild(*logPath)
 		return
@@ -408,6 +453,8 @@ func main() {
 			c02One(hid, h.l, rec, cuts)
 		case "c06":
 			c06One(hid, h.l, rec)
+		case "c07":
+			c07One(hid, h.l, rec)
 		default:
 			fatal("unknown mode %s", mode)
 		}
